@@ -516,6 +516,31 @@ PROPS = {
                          "(versioning branches); backward traversal is compared with the reverse of the forward model; the B+tree "
                          "back-end is exercised, its map refinement is C18's"],
     },
+    "C14": {
+        "lean": ["Skv.Props.C14"],
+        "audit": "Skv/Audit/C14.lean",
+        "streams": [
+            {"name": "restore", "harness": "c14", "driver": "c14", "quick_cases": 200, "thorough_cases": 3000,
+             "nontrivial": lambda lines: any(l.startswith("restore") for l in lines) and
+                                          any(l.startswith(("flush", "compact")) for l in lines) and
+                                          any(l.startswith(("race", "snapread", "reopen", "crashscan")) for l in lines),
+             "model_is_spec": True, "timeout": 3000},
+        ],
+        "rule": "histories on a real Tree (3 levels, L0 limit 1, 256-byte blocks, value log on/off with a 64-byte threshold and 2 KiB "
+                "value-log files): write transactions (1-3 writes, values of 1-30 and 200-900 bytes, deletes), flushes and compaction "
+                "rounds before the checkpoint, between checkpoint and restore (new tables and value-log files under higher ids) and after "
+                "the restore (table and value-log ids are reused); after every restore: scans and gets, two overlapping read-modify-write "
+                "transactions (the second must be refused), a reader spanning a commit, further commits, flush, compaction, clean reopen; "
+                "the checkpoint directory opened standalone; in a third of the cases the asynchronous WAL clean-up of a flush made just "
+                "before the restore is held back until after a post-restore commit, and a process-crash image is then opened; every "
+                "answer compared with the key-value specification (restore = the remembered state); non-trivial = a restore with "
+                "table-creating operations and a post-restore guarantee probe",
+        "assumptions": [
+            "the checkpoint is taken while no commit is in flight (as the property states); versioning / version index on are not exercised here",
+        ],
+        "trusted_base": ["modelled, not verified: the id-keyed block cache and the id counter rewind of restore (Skv/Model/Restore.lean); "
+                         "the value-log reload, sequence / oracle reset and manifest reload are exercised by the stream only"],
+    },
     "C15": {
         "lean": ["Skv.Props.C15"],
         "audit": "Skv/Audit/C15.lean",
